@@ -44,7 +44,9 @@ SPEC = {
     "lean_modules": ["RsslVerif.Thm.C09", "RsslVerif.Thm.C10", "RsslVerif.Lemmas.LiteralText"],
     "level_note": "roundtrip_xexpr_partial / roundtrip_stmt_partial / roundtrip_decl_partial / roundtrip_function_partial / "
                   "roundtrip_struct_partial: WF / WFS / WFVarDef / WFFn / WFStruct are decidable syntactic carve-outs "
-                  "(notes/C09.md); integer literal text is proved (literal_roundtrip_int), float literal text, enums, cbuffers, "
+                  "(notes/C09.md; after fix batch 2 they no longer exclude operators in template / sizeof arguments nor comma "
+                  "expressions in attribute arguments and default values, and structs have base types); integer literal text is "
+                  "proved (literal_roundtrip_int), float literal text, enums, cbuffers, "
                   "globals and template parameter lists are reached by the correspondence run only",
     "theorems": [T + n for n in [
         "binToks_lexes", "unTok_lexes", "tables_agree", "assoc_agrees", "ternary_level", "unary_tables_agree",
@@ -62,6 +64,7 @@ SPEC = {
         "attribute_comma_roundtrips", "for_init_pointer_reads_as_expr",
         # function and struct definitions (Model/FormatDef + Model/ParseDef)
         "roundtrip_param_partial", "roundtrip_function_partial", "roundtrip_struct_partial", "default_arg_comma_roundtrips",
+        "struct_base_types_roundtrip",
         # text of integer literals through C10's lexer model
         "literal_roundtrip_int"]] + [
         # "every literal reads back with the same value and type": the reading half is property C10's; its literal
@@ -89,8 +92,15 @@ SPEC = {
                   "definition with attributes, in / out / inout parameters with declarators, semantics and default values, and any "
                   "body (roundtrip_function_partial), every struct of member definitions and methods (roundtrip_struct_partial), at "
                   "every nesting depth, for every set of type names. The carve-outs (WF, WFS, WFVarDef, WFFn, WFStruct) are decidable and syntactic; for the shapes "
-                  "they exclude that really fail (operators exposed in template / sizeof arguments, a < b > (c), dangling else, comma "
-                  "in attribute arguments and default values) the negation is proved with a witness. Table-level obligations (precedence <-> level, "
+                  "they exclude that really fail (a < b > (c), dangling else, a pointer definition in a for initialiser, negative "
+                  "literals) the negation is proved with a witness. The shapes repaired by fix batch 2 are covered now and their former "
+                  "witnesses are positive theorems: every operator in a template / sizeof argument (printed at (7, CommaList): "
+                  "eot_parenthesised_admissible, sizeof_shift_roundtrips, template_arg_*_roundtrips), comma expressions in attribute "
+                  "arguments and default values (attribute_comma_roundtrips, default_arg_comma_roundtrips), an integer literal as the "
+                  "object of a member access (member_of_int_literal_roundtrips), struct base types (struct_base_types_roundtrip), and a "
+                  "negative literal is parenthesised exactly like the unary minus of its magnitude (negative_literal_binds_like_minus; "
+                  "paren_rule_matches_grammar quantifies over negative literals as productions of the prefix level). "
+                  "Table-level obligations (precedence <-> level, "
                   "associativity, spelling <-> tokens, operator glue, modifier spelling <-> keyword <-> parser arm) are decided over "
                   "the regenerated tables, and 63 hand-modelled functions are fingerprinted. The text of non-negative integer literals of every suffix is "
                   "proved to read back through C10's lexer model (literal_roundtrip_int); enums, cbuffers, globals, template "
@@ -106,7 +116,10 @@ SPEC = {
             "methods and base types, enums, cbuffers, namespaces, resource globals). non-trivial = at least two operator nodes",
     "trusted_base": [
         "Lean 4.33 kernel; axioms propext / Classical.choice / Quot.sound only (audited by #print axioms)",
-        "tools/gens/c09.py (FmtTables, ParseTables as before; SyntaxTables: TypeModifier variants and Debug spellings, lexer "
+        "tools/gens/c09.py (FmtTables, ParseTables as before + the guarded literal arms of get_expression_precedence and the "
+        "is_int_literal test of the Member arm; SyntaxTables: the (precedence, side) of expression-or-type positions, attribute "
+        "arguments, default values and enum values, the order template parameters / attributes of format_function, whether "
+        "format_struct prints base types, TypeModifier variants and Debug spellings, lexer "
         "keyword table, parse_type_modifiers_before/after arms, cast / sizeof / call arms and alternative orders (shape "
         "checks), sha256 fingerprints of 63 hand-modelled functions) - re-run on /repo's working tree every time",
         "hand-written Model/Format.lean, Model/Parse.lean (first model), Model/FormatFull.lean, Model/ParseFull.lean (casts, "
@@ -122,7 +135,9 @@ SPEC = {
         "type names: the model is run with the set W of names that are types; the real parser returns all readings and the "
         "type checker picks with W (the harness resolves the same way)",
         "white space of statements is compared collapsed; BracedInit, attributes on declarators, location annotations of "
-        "locals, StaticSampler, template parameter lists, const / volatile methods, register / packoffset annotations and "
-        "struct base types are answered `unsupported` by the model and judged by the oracle only",
+        "locals, StaticSampler, template parameter lists, const / volatile methods and register / packoffset annotations "
+        "are answered `unsupported` by the model and judged by the oracle only",
+        "an expression-or-type position is compared on what syntax can tell: `Either(expr, type)` equals `Expression(expr)` "
+        "(`T<(n[b])>` prints `T<n[b]>`, which reads back as Either; neither form is accepted by the type checker)",
     ],
 }
